@@ -16,11 +16,13 @@
      start line <= max 1 N  and  end line <= max 1 N                        for every node whose value is `free_val`
      start line <= max 1 (end line)                                         for ThematicBreak, fenced CodeBlock,
                                                                             MultilineBlockQuote
-   where N is the final line_number.  `free_val`: every value when the table extension is off; with the extension on,
-   every value except Paragraph, setext Heading, Table, TableRow, TableCell, DescriptionList, DescriptionItem (their start
-   line is, or is copied from, `paragraph start + newlines of the preface`, which is bounded only by an invariant on
-   line_offsets that needs uniqueness of the node identifiers: see BlocksPos_lines_full_statement in Props/BlocksPos.v)
-   and except FrontMatter in either case (its end line is NOT bounded by N: front_matter_end_refuted).
+   where N is the final line_number.  `free_val o v`: not (description lists AND table extension both on), v is not
+   FrontMatter (its end line is NOT bounded by N: front_matter_end_refuted in BlocksPosRun.v), and either the table
+   extension is off or v is none of Paragraph, setext Heading, Table, TableRow, TableCell, DescriptionList,
+   DescriptionItem (their start line is, or is copied from, `paragraph start + newlines of the preface`, which is bounded
+   only by an invariant on line_offsets that needs uniqueness of the node identifiers: see
+   BlocksPos_lines_full_statement in Props/BlocksPos.v).  The third claim (`tbl`) is made with description lists off only:
+   parse_desc_list_details writes a start through an identifier returned by add_child.
    NO Model file is changed. *)
 From Coq Require Import List NArith Arith Bool Lia Strings.String.
 From V Require Import Base.Bytes Base.Res Gen.StrLeafGen Gen.FeedConst Gen.Nodes Gen.BlocksConst Model.Ast Model.Strings
@@ -113,7 +115,7 @@ Definition max1 (n : nat) : nat := Nat.max 1 n.
 
 (* values whose start and end line are bounded by the line counter (see the header) *)
 Definition free_val (o : bopts) (v : node_value) : bool :=
-  negb (bo_description_lists o) &&
+  negb (bo_description_lists o && bo_table o) &&
   match v with
   | FrontMatter _ => false
   | Paragraph | Table _ | TableRow _ | TableCell | DescriptionList | DescriptionItem _ _ _ => negb (bo_table o)
@@ -144,7 +146,10 @@ Lemma Pn4_mono o L L' sl sc el v : L <= L' -> Pn4 o L sl sc el v -> Pn4 o L' sl 
 Proof. unfold Pn4, max1. intros H (A & B & C & D). repeat split; try assumption; specialize (C H0); lia. Qed.
 
 Lemma tb_like_free o v : tbl o v = true -> free_val o v = true.
-Proof. unfold tbl, free_val. destruct (bo_description_lists o); [rewrite andb_false_r; discriminate|]. destruct v; cbn; congruence. Qed.
+Proof.
+  unfold tbl, free_val. destruct (bo_description_lists o); [rewrite andb_false_r; discriminate|].
+  cbn [andb negb]. destruct v; cbn; congruence.
+Qed.
 
 (* the state invariant: the line counter is L and every node satisfies Pn at L *)
 Definition PIL (o : bopts) (L : nat) (st : pstate) : Prop :=
@@ -517,14 +522,7 @@ Proof.
   - eapply try_opening_row_pil; [exists cn; split; [exact G | exact Bv] | exact H | exact T | exact HL | exact P].
 Qed.
 
-(* ================================================================== description lists (the claims are void with the extension on) *)
-Lemma Pn_dl o L i : bo_description_lists o = true -> (Pn o L i <-> 1 <= bi_sl i /\ 1 <= bi_sc i).
-Proof.
-  intro D. unfold Pn, Pn4, free_val, tbl. rewrite D. cbn [negb andb]. rewrite andb_false_r. split.
-  - intros (A & B & _). split; assumption.
-  - intros [A B]. repeat split; try assumption; discriminate.
-Qed.
-
+(* ================================================================== description lists *)
 Lemma reopen_pil o L : forall fuel st id st', reopen_ast_nodes fuel st id = Ok st' -> PIL o L st -> PIL o L st'.
 Proof. induction fuel as [|f IH]; intros st id st' H P; cbn [reopen_ast_nodes] in H; pilgo H. Qed.
 #[export] Hint Resolve reopen_pil : pil.
@@ -532,8 +530,19 @@ Proof. induction fuel as [|f IH]; intros st id st' H P; cbn [reopen_ast_nodes] i
 Lemma last_kid_all P c lc : all_info P c -> last_opt (bkids c) = Some lc -> all_info P lc.
 Proof. intros A Hl. eapply all_info_kid; [exact A | now apply last_opt_in]. Qed.
 
-Lemma set_start_dl o L l c : bo_description_lists o = true -> 1 <= l -> 1 <= c -> forall i, Pn o L i -> Pn o L (set_start l c i).
-Proof. intros D A B i _. apply (Pn_dl o L _ D). destruct i. cbn. split; assumption. Qed.
+(* the start of an absorbed paragraph written into another node: with description lists on `tbl` is void, and a value
+   is `free_val` only when the table extension is off, and then the paragraph's start is bounded as well *)
+Lemma set_start_dl o L l c elp : bo_description_lists o = true -> Pn4 o L l c elp Paragraph ->
+  forall i, Pn o L i -> Pn o L (set_start l c i).
+Proof.
+  intros D (A & B & C & _) i (_ & _ & Ci & _). unfold Pn, Pn4. cbn [bi_sl bi_sc bi_el bi_val set_start].
+  repeat split; try assumption.
+  - assert (Fp : free_val o Paragraph = true).
+    { revert H. unfold free_val. rewrite D. cbn [andb]. destruct (bo_table o); cbn; [discriminate | reflexivity]. }
+    apply C. exact Fp.
+  - apply Ci. exact H.
+  - unfold tbl. rewrite D. rewrite andb_false_r. discriminate.
+Qed.
 
 Lemma parse_desc_list_details_pil o L st c m b c' st' :
   parse_desc_list_details o st c m = Ok (b, c', st') -> bo_description_lists o = true -> 1 <= L -> PIL o L st -> PIL o L st'.
@@ -548,9 +557,9 @@ Proof.
     - inversion R; subst. eapply last_kid_all; eassumption.
     - mon R. eapply last_kid_all; [eapply get_all; [exact P | eassumption] | eassumption]. }
   clear R.
-  pose proof (proj1 (Pn_dl o L _ D) (all_info_binf _ _ Alc)) as [Al1 Al2].
-  pose proof (set_start_dl o L _ _ D Al1 Al2) as SS.
-  destruct (bval lc) eqn:Bl; try (inversion H; subst; exact P).
+  pose proof (all_info_binf _ _ Alc) as Plc. unfold Pn in Plc.
+  destruct (bval lc) eqn:Bl; try (inversion H; subst; exact P);
+    [|unfold bval in Bl; rewrite Bl in Plc; pose proof (set_start_dl o L _ _ _ D Plc) as SS].
   - (* DescriptionItem *) pilgo H.
   - (* Paragraph *)
     mon H; monall; repeat match goal with p : (_ * _)%type |- _ => destruct p end; cbn [fst snd] in *;
